@@ -57,7 +57,7 @@ Section Cluster.
      else { j += 1 } }                                                                      :198-204
      `ci` is cluster[i]: pushes go to the end of `cluster` and i < cluster.len() holds in the
      enclosing loop, so the element read at :199 is the one read once by flood_i. *)
-  Fixpoint flood_j (fuel : nat) (ci : point) (cluster points : list point) (j : nat)
+  Fixpoint flood_j_idx (fuel : nat) (ci : point) (cluster points : list point) (j : nat)
     : res (list point * list point) :=
     match fuel with
     | O => Err E_fuel
@@ -66,10 +66,32 @@ Section Cluster.
           do pj <- idx points j;
           if near ci pj then
             do '(x, points') <- swap_remove j points;
-            flood_j f ci (vpush cluster x) points' j
-          else flood_j f ci cluster points (S j)
+            flood_j_idx f ci (vpush cluster x) points' j
+          else flood_j_idx f ci cluster points (S j)
         else Ok (cluster, points)
     end.
+  (* The same loop on a zipper, used by the executable model (the index form costs O(len) per step):
+     points = rev pre_rev ++ suf and j = length pre_rev.  Cluster_proofs.flood_jz_index proves
+       flood_jz fuel ci cluster pre_rev suf = flood_j_idx fuel ci cluster (rev pre_rev ++ suf) (length pre_rev),
+     outcome for outcome, with the same fuel. *)
+  Fixpoint flood_jz (fuel : nat) (ci : point) (cluster pre_rev suf : list point)
+    : res (list point * list point) :=
+    match fuel with
+    | O => Err E_fuel
+    | S f =>
+        match suf with
+        | [] => Ok (cluster, rev_append pre_rev [])                         (* j = points.len() *)
+        | pj :: suf' =>
+            if near ci pj then
+              match vpop suf' with
+              | None => flood_jz f ci (vpush cluster pj) pre_rev []         (* j was the last index *)
+              | Some (l, y) => flood_jz f ci (vpush cluster pj) pre_rev (y :: l)  (* the last element moves to j *)
+              end
+            else flood_jz f ci cluster (pj :: pre_rev) suf'                 (* j += 1 *)
+        end
+    end.
+  Definition flood_j (fuel : nat) (ci : point) (cluster points : list point) :=   (* let mut j = 0; while ... *)
+    flood_jz fuel ci cluster [] points.
   (* while i < cluster.len() { let mut j = 0; ...; i += 1 }                                 :196-206 *)
   Fixpoint flood_i (fuel : nat) (cluster points : list point) (i : nat)
     : res (list point * list point) :=
@@ -78,7 +100,7 @@ Section Cluster.
     | S f =>
         if i <? length cluster then
           do ci <- idx cluster i;
-          do '(cluster', points') <- flood_j (S (length points)) ci cluster points 0;
+          do '(cluster', points') <- flood_j (S (length points)) ci cluster points;
           flood_i f cluster' points' (S i)
         else Ok (cluster, points)
     end.
